@@ -59,6 +59,14 @@ class StreamingDetector(ABC):
         if isinstance(X, DataFrame):
             # The first update with a dataframe will constrain subsequent input.
             if self._input_cols is None:
+                if (
+                    self._input_col_dim is not None
+                    and len(X.columns) != self._input_col_dim
+                ):
+                    # width established by earlier non-dataframe input
+                    raise ValueError(
+                        "Column-dimension of new data must match prior data."
+                    )
                 input_cols = X.columns
                 input_col_dim = len(input_cols)
             elif self._input_cols is not None:
